@@ -1,9 +1,11 @@
 // Package c04 decides property C04 (the exported span equals a reference
 // model of the operations applied to it): a generated program of span API
 // calls under generated span limits is applied to a real span of a
-// TracerProvider(WithRawSpanLimits, recording SpanProcessor) and the
-// ReadOnlySpan handed to OnEnd is compared with an ordered-map / bounded-FIFO
-// model that never looks at the implementation.
+// TracerProvider (recording SpanProcessor; the limits configured through a
+// generated public way: WithRawSpanLimits, the deprecated WithSpanLimits,
+// NewSpanLimits + environment variables, provider defaults, see
+// limits_test.go) and the ReadOnlySpan handed to OnEnd is compared with an
+// ordered-map / bounded-FIFO model that never looks at the implementation.
 //
 // Readings of the statement chosen where it (or the documentation) is open:
 //
@@ -45,7 +47,22 @@
 //     panic (language rule for recover) and is modelled as an ordinary End.
 //     End on a span that has already ended changes nothing, panicking or not.
 //   - "any span limits": every negative value means unlimited (SpanLimits
-//     doc), not just -1; positive limits are drawn up to MaxInt64.
+//     doc), not just -1; positive limits are drawn up to MaxInt64. The limits
+//     are "any" also in the way they are set: the model derives the limits in
+//     force from the documentation of the way the case configures them
+//     (WithRawSpanLimits as-is; WithSpanLimits: zero / negative fields become
+//     the documented defaults, unlimited value length and 128; no option:
+//     NewSpanLimits, i.e. the documented environment variables or the
+//     defaults; NewSpanLimits() + overwritten fields through either option; a
+//     later span limits option overrides an earlier one; an environment
+//     value that is not an integer counts as unset; the general
+//     OTEL_ATTRIBUTE_* variables stand in for unset span-specific ones).
+//   - Reading the span (the ReadWriteSpan of OnStart: Attributes, Events,
+//     Links, dropped counts ...) between two calls is not a call of the
+//     statement and changes nothing; what such a read returns is not asserted.
+//     The sampler's decision (RecordAndSample / RecordOnly) and what the
+//     context passed to Start holds (no parent, local / remote parent,
+//     WithNewRoot) are generated and must not matter.
 //   - SetStatus with the code already set replaces the description (API doc:
 //     "provided the status hasn't already been set to a higher value").
 //   - WithLinks documents that links with an invalid span context are
@@ -115,11 +132,18 @@ func (*recorder) Shutdown(context.Context) error   { return nil }
 func (*recorder) ForceFlush(context.Context) error { return nil }
 
 // attrSampler samples everything and hands attributes to the new span.
-type attrSampler struct{ attrs []attribute.KeyValue }
+type attrSampler struct {
+	attrs      []attribute.KeyValue
+	recordOnly bool
+}
 
 func (s attrSampler) ShouldSample(p sdktrace.SamplingParameters) sdktrace.SamplingResult {
+	d := sdktrace.RecordAndSample
+	if s.recordOnly {
+		d = sdktrace.RecordOnly
+	}
 	return sdktrace.SamplingResult{
-		Decision:   sdktrace.RecordAndSample,
+		Decision:   d,
 		Attributes: s.attrs,
 		Tracestate: trace.SpanContextFromContext(p.ParentContext).TraceState(),
 	}
@@ -148,6 +172,32 @@ func mkErr(kind int, msg string) error {
 }
 
 func ts(n int64) time.Time { return time.Unix(0, n) }
+
+// parentContext is the context handed to Start (Case.Parent).
+func parentContext(kind int) context.Context {
+	ctx := context.Background()
+	if kind == 0 {
+		return ctx
+	}
+	cfg := trace.SpanContextConfig{
+		TraceID:    trace.TraceID{0xc0, 4, 0, 0, 0, 0, 0, 0, 0, 0, 0, 0, 0, 0, 0, 1},
+		SpanID:     trace.SpanID{0xc0, 4, 0, 0, 0, 0, 0, 2},
+		TraceFlags: trace.FlagsSampled,
+	}
+	switch kind {
+	case 2:
+		cfg.Remote = true
+	case 3:
+		cfg.Remote = true
+		cfg.TraceFlags = 0
+		cfg.TraceState, _ = trace.ParseTraceState("vendor=parent")
+	}
+	sc := trace.NewSpanContext(cfg)
+	if cfg.Remote {
+		return trace.ContextWithRemoteSpanContext(ctx, sc)
+	}
+	return trace.ContextWithSpanContext(ctx, sc)
+}
 
 // panicStruct is a panic value that is neither a string nor an error.
 type panicStruct struct{ Msg string }
@@ -248,8 +298,10 @@ func (l *lender) scribble() {
 // a second provider and what the runner itself observed.
 type prog struct {
 	span trace.Span
-	sib  trace.Span // nil without sibling
-	vs   []vk.Violation
+	// the same span as the SDK handed it to SpanProcessor.OnStart (peek ops)
+	rw  sdktrace.ReadWriteSpan
+	sib trace.Span // nil without sibling
+	vs  []vk.Violation
 	// a lent slice did not hold the caller's values when a call returned
 	// (recorded as a class, not asserted)
 	callerSliceModified bool
@@ -318,7 +370,24 @@ func callOp(span trace.Span, op Op, s, s2 []attribute.KeyValue) {
 	}
 }
 
+// peek reads everything a ReadWriteSpan offers about the state the statement
+// covers. What the reads return is not asserted.
+func peek(rw sdktrace.ReadWriteSpan) {
+	if rw == nil {
+		return
+	}
+	_ = rw.Attributes()
+	_ = rw.Events()
+	_ = rw.Links()
+	_, _, _ = rw.DroppedAttributes(), rw.DroppedEvents(), rw.DroppedLinks()
+	_, _, _ = rw.Name(), rw.Status(), rw.EndTime()
+}
+
 func (p *prog) applyOp(idx int, op Op) {
+	if op.Op == "peek" {
+		peek(p.rw)
+		return
+	}
 	var l lender
 	defer l.scribble()
 	var s, s2 []attribute.KeyValue
@@ -688,26 +757,27 @@ func compare(prefix string, c Case, m *model, ro sdktrace.ReadOnlySpan) []vk.Vio
 
 // ---------------------------------------------------------------------
 
-func run(c Case) ([]vk.Violation, vk.Info) {
+func run(gc Case) ([]vk.Violation, vk.Info) {
 	var info vk.Info
+
+	// gc is the case as generated (the numbers and the way they are
+	// configured): it is used to BUILD the providers. c is the same case under
+	// the limits the documentation of that way predicts: everything the model
+	// and the comparison do uses c.
+	c := eff(gc)
+	restoreEnv := applyEnv(gc.Cfg.Env)
+	defer restoreEnv()
 
 	rec := &recorder{}
 	var sampler sdktrace.Sampler = sdktrace.AlwaysSample()
-	if len(c.SamplerAttrs) > 0 {
-		sampler = attrSampler{attrs: vk.ToAttrs(c.SamplerAttrs)}
+	if len(c.SamplerAttrs) > 0 || c.RecordOnly {
+		sampler = attrSampler{attrs: vk.ToAttrs(c.SamplerAttrs), recordOnly: c.RecordOnly}
 	}
-	tp := sdktrace.NewTracerProvider(
-		sdktrace.WithRawSpanLimits(sdktrace.SpanLimits{
-			AttributeValueLengthLimit:   c.Limits.ValueLen,
-			AttributeCountLimit:         c.Limits.Attrs,
-			EventCountLimit:             c.Limits.Events,
-			LinkCountLimit:              c.Limits.Links,
-			AttributePerEventCountLimit: c.Limits.PerEvent,
-			AttributePerLinkCountLimit:  c.Limits.PerLink,
-		}),
+	tpOpts := append(limitOptions(gc.Limits, gc.Cfg),
 		sdktrace.WithSampler(sampler),
 		sdktrace.WithSpanProcessor(rec),
 	)
+	tp := sdktrace.NewTracerProvider(tpOpts...)
 	defer func() { _ = tp.Shutdown(context.Background()) }()
 
 	opts := []trace.SpanStartOption{trace.WithSpanKind(trace.SpanKind(c.Kind))}
@@ -724,22 +794,28 @@ func run(c Case) ([]vk.Violation, vk.Info) {
 		}
 		opts = append(opts, trace.WithLinks(links...))
 	}
-	_, span := tp.Tracer("c04").Start(context.Background(), string(c.Name), opts...)
+	if c.Parent == 4 {
+		opts = append(opts, trace.WithNewRoot())
+	}
+	_, span := tp.Tracer("c04").Start(parentContext(c.Parent), string(c.Name), opts...)
 
 	p := &prog{span: span}
+	rec.mu.Lock()
+	if len(rec.started) == 1 {
+		p.rw = rec.started[0]
+	}
+	rec.mu.Unlock()
 	var sc Case
 	sibRec := &recorder{}
 	if c.HasSib {
 		sc = sibCase(c)
+		sibLimits := sdktrace.WithRawSpanLimits(asSDK(gc.Sib))
+		if gc.SibDeprecated {
+			//nolint:staticcheck // the deprecated spelling is part of the public API.
+			sibLimits = sdktrace.WithSpanLimits(asSDK(gc.Sib))
+		}
 		stp := sdktrace.NewTracerProvider(
-			sdktrace.WithRawSpanLimits(sdktrace.SpanLimits{
-				AttributeValueLengthLimit:   c.Sib.ValueLen,
-				AttributeCountLimit:         c.Sib.Attrs,
-				EventCountLimit:             c.Sib.Events,
-				LinkCountLimit:              c.Sib.Links,
-				AttributePerEventCountLimit: c.Sib.PerEvent,
-				AttributePerLinkCountLimit:  c.Sib.PerLink,
-			}),
+			sibLimits,
 			sdktrace.WithSampler(sdktrace.AlwaysSample()),
 			sdktrace.WithSpanProcessor(sibRec),
 		)
@@ -772,6 +848,7 @@ func run(c Case) ([]vk.Violation, vk.Info) {
 	primary := newModel(c, vars[0])
 	classify(&info, c, primary, len(vars))
 	classifySharing(&info, c)
+	classifyCfg(&info, gc, c.Limits)
 
 	if len(exported) != 1 || len(started) != 1 {
 		return []vk.Violation{vk.V("export_count", "span started %d times, exported %d times, expected once each", len(started), len(exported))}, info
@@ -805,13 +882,26 @@ func run(c Case) ([]vk.Violation, vk.Info) {
 		vs := compare("", c, m, exported[0])
 		vs = append(vs, compare("live_", c, m, started[0])...)
 		if len(vs) == 0 {
-			return common, info
+			return annotate(gc, common), info
 		}
 		if i == 0 {
 			first = vs
 		}
 	}
-	return append(first, common...), info
+	return annotate(gc, append(first, common...)), info
+}
+
+// annotate names, in every violation, the way the limits were configured
+// whenever that is not the plain WithRawSpanLimits literal.
+func annotate(gc Case, vs []vk.Violation) []vk.Violation {
+	note := describeCfg(gc)
+	if note == "" {
+		return vs
+	}
+	for i := range vs {
+		vs[i].Msg += " " + note
+	}
+	return vs
 }
 
 // classifySharing counts the slice re-use dimension.
@@ -953,18 +1043,24 @@ func classify(info *vk.Info, c Case, m *model, nvariants int) {
 	info.ClassIf(st.endInClosure > 0, "end_inside_deferred_closure_while_panicking")
 	info.ClassIf(m.endHasTS, "end_timestamp_supplied")
 	info.ClassIf(len(c.Ops) == 0, "no_calls")
+	info.ClassIf(st.peeks > 0, "span_read_mid_program")
+	info.ClassIf(st.peeksLive > 0, "live_span_with_attributes_read_mid_program")
+	info.ClassIf(c.RecordOnly, "sampler_decision_record_only")
+	info.ClassIf(c.Parent == 1, "parent_local_span_context")
+	info.ClassIf(c.Parent == 2 || c.Parent == 3, "parent_remote_span_context")
+	info.ClassIf(c.Parent == 4, "parent_in_context_with_new_root")
 }
 
 func TestSpanModel(t *testing.T) {
 	vk.Run(t, vk.Spec[Case]{
 		Property: "C04", Check: "span_model",
-		Rule: "six span limits, 80% from {-1,0,1,2,3,5,128} (biased small), 10% from 4..MaxInt64 (around 8, 32, 128), 10% other negative values down to MinInt64; start options (attributes, sampler attributes, links, kind, timestamp) and 0..40 span API calls " +
-			"(SetAttributes 0..12 kvs of all eight types with duplicate/empty keys and hostile strings incl. long strings built to land on limit-1/limit/limit+1 characters and up to 700 characters, AddEvent, AddLink valid/invalid, RecordError, SetStatus, SetName, " +
+		Rule: "six span limits, 80% from {-1,0,1,2,3,5,128} (biased small), 10% from 4..MaxInt64 (around 8, 32, 128), 10% other negative values down to MinInt64, handed over through a generated public way (40% WithRawSpanLimits, 30% the deprecated WithSpanLimits whose zero / negative fields mean the defaults, 30% no option = NewSpanLimits; with an option, 1/3 build the value as NewSpanLimits() + a generated subset of overwritten fields; environment: each of the six documented variables and the two general OTEL_ATTRIBUTE_* ones unset / a plain, signed or zero-padded decimal spelling / blank / not an integer; 1/8 with an earlier span limits option that must be overridden; 1/4 of the sibling providers through WithSpanLimits), the model deriving the limits in force from the documentation of that way; sampler decision RecordAndSample / RecordOnly, parent context none / local / remote / WithNewRoot; start options (attributes, sampler attributes, links, kind, timestamp) and 0..40 span API calls " +
+			"(SetAttributes 0..12 kvs of all eight types with duplicate/empty keys and hostile strings incl. long strings built to land on limit-1/limit/limit+1 characters and up to 700 characters, AddEvent, AddLink valid/invalid, RecordError, SetStatus, SetName, reads of the span through the ReadWriteSpan of OnStart between calls, " +
 			"End with/without WithTimestamp and WithStackTrace(true|false), called plainly, as the deferred call of a panicking goroutine (panic value string / error / int / struct) or inside a deferred closure of one) incl. calls after End; " +
 			"event/link/error calls may be repeated as a burst; 1/16 of the programs are attribute-heavy (1000 keys, single calls of up to 300 kvs) and 1/16 queue-heavy (bursts of up to 300 events/links, up to 300 start links, lists of up to 300 attributes per event/link, limits around 128); " +
 			"attribute slices are caller-owned (spare capacity, scribbled after the op) and in a generated fraction of ops the same slice object is also passed to a second call on the same span and, before or after the primary call, to the corresponding call of a sibling span of a second provider with its own limits (half of the cases); " +
 			"non-trivial = the program fills the attribute map (a new key refused or an existing key updated while full) or evicts/drops >= 1 event or link or has >= 1 string cut by the value length limit; distinct = distinct case encodings",
-		Quick: 20000, Thorough: 400000,
+		Quick: 24000, Thorough: 400000,
 		Gen: gen, Run: run,
 		// no open known finding: the limit-0 / single-invalid-byte defect this
 		// check found was repaired in /repo (see known_findings.json "fixed").
